@@ -13,7 +13,7 @@ PROPERTY = 'C17'
 RULE = ('write/writeln(int) for all 65536 values at 16 bits (16 shards of 4096 values passed as int[] arguments); at 24/32/64 bits +-40 around '
         'every power of ten and of two plus random values; bool; all 256 bytes; byte arrays and strings of every length 0..64 as const global, '
         'mutable local, parameter and string-converted; every call surrounded by live caller scalars and arrays that are re-printed afterwards, '
-        'at a generous stack and at the smallest stack that does not overflow; non-trivial = every value / length; distinct by (kind, value, word)')
+        'at a generous stack and at the smallest stack that does not overflow, also from inside try bodies that are undone, committed and stopped; non-trivial = every value / length; distinct by (kind, value, word)')
 ASSUMPTIONS = common.ISA_ASSUMPTIONS[:3]
 REQUIRED_HIDC_FUNCTIONS = ['codegen/generator:CodeGen.eval_func_call']     # M-COV: deciding code never entered => inconclusive
 MIN_NONTRIVIAL = {'quick': 66000, 'thorough': 90000}
@@ -42,6 +42,24 @@ empty @is_you(const int[] v) {
         write(top[0] + top[1] + top[2]); write(t2); write(before); write(arr); write(flag); write(g); write(';');
         write(v[i] == 0); write(t2[2]); writeln();
         write(top[2]); write(' ');
+    }
+}
+'''
+
+# the same inside try bodies: one that is undone (whatever the write routines do on that doomed path must not leak into
+# the committed timeline, e.g. by overwriting the array the defeat condition reads), one that commits, one that is stopped
+CALLER_TT_PROG = '''
+int g = 4242;
+empty @is_you(const int[] v) {
+    int before = -777;
+    byte[] arr = ['k', 'e', 'e', 'p'];
+    for (int i = 0; i < v.length; i += 1) {
+        byte[] guard = [0, 1];
+        int[] top = [11, 22, 33];
+        try { write(v[i]); write(arr); !truth_is_defeat(guard[0] == 0); write('!'); } undo { write('u'); }
+        try { write(v[i]); write(true); !truth_is_defeat(guard[1] == 0); write(';'); } undo { write('U'); }
+        try { writeln(v[i]); !truth_is_defeat(guard[0] == 0); write('!'); } stop { write('s'); }
+        write(guard[0] is int); write(guard[1] is int); write(top[0] + top[2]); write(before); write(arr); write(g); writeln();
     }
 }
 '''
@@ -183,42 +201,46 @@ def run_shard(spec):
         hi, lo = (1 << (bits - 1)) - 1, -(1 << (bits - 1))
         r = random.Random(spec['seed'] + word)
         vals = [0, 5, -5, 9, 10, 99, 100, -100, hi, lo, hi - 1, lo + 1, 12345, -12345] + [r.randint(lo, hi) for _ in range(30)]
-        want = b''
-        for v in vals:
-            want += str(v).encode() + b'\n' + b'66xyz-777keeptrue4242;' + (b'true' if v == 0 else b'false') + b'z\n' + b'33 '
-        CompilerError, _ = env.compiler_error_types()
-        base = env.compile_src(CALLER_PROG, word=word, stack=diff.GENEROUS_STACK)
-        args = [str(v) for v in vals]
-        ids = [runner.case_id('caller', word, v) for v in vals]
-        g = expect_run(res, CALLER_PROG, args, word, want, f'caller state around write(int), word {word}', ids, lines=base)
-        if g is not None:
-            # smallest stack that reproduces the generous outcome, then the sizes around it
-            lo_s, hi_s = 0, diff.GENEROUS_STACK
-            while lo_s + 1 < hi_s:
-                mid = (lo_s + hi_s) // 2
-                rr = diff.run_lines(with_stack(base, mid), args, 3_000_000)
-                if rr.kind == 'ok' and rr.outcome.out == want and rr.outcome.klass == 'WIN':
-                    hi_s = mid
+        for PROG, tt in ((CALLER_PROG, False), (CALLER_TT_PROG, True)):
+            want = b''
+            for v in vals:
+                if tt:
+                    want += b'u' + str(v).encode() + b'true;' + str(v).encode() + b'\ns' + b'0144-777keep4242\n'
                 else:
-                    lo_s = mid
-            runner.count(res, 'smallest_sufficient_stack_words_w%d' % word, hi_s)
-            for s in range(max(1, hi_s - 3), hi_s + 4):
-                lines = with_stack(base, s)
-                res['evaluations'] += 1
-                rr = diff.run_lines(lines, args, 3_000_000)
-                o = rr.outcome
-                case = diff.case_dict(CALLER_PROG, args, word, s)
-                san = [x for x in o.reports if x[1] == 'san']
-                if san:
-                    runner.fail(res, 'M-SAN', f'write routine at stack {s}: {san[0][2]} (asm line {san[0][4]})', case, observed=o.brief())
-                    break
-                if s >= hi_s and (o.out != want or o.klass != 'WIN'):
-                    runner.fail(res, 'M-WRITE', f'caller state disturbed at exactly-sufficient stack {s}', case, expected=want[:200].decode(), observed=o.brief())
-                    break
-                if s < hi_s and not (o.klass == 'ERROR:stack_overflow' and want.startswith(o.out)):
-                    runner.fail(res, 'M-WRITE', f'at stack {s} (below the smallest sufficient size {hi_s}) the run neither overflows cleanly nor prints a prefix: {o.klass} {o.out[-40:]!r}',
-                                case, observed=o.brief())
-                    break
-                runner.count(res, 'tight_stack_runs_ok')
+                    want += str(v).encode() + b'\n' + b'66xyz-777keeptrue4242;' + (b'true' if v == 0 else b'false') + b'z\n' + b'33 '
+            CompilerError, _ = env.compiler_error_types()
+            base = env.compile_src(PROG, word=word, stack=diff.GENEROUS_STACK)
+            args = [str(v) for v in vals]
+            ids = [runner.case_id('caller', tt, word, v) for v in vals]
+            g = expect_run(res, PROG, args, word, want, f'caller state around write(int){" inside try blocks" if tt else ""}, word {word}', ids, lines=base)
+            if g is not None:
+                # smallest stack that reproduces the generous outcome, then the sizes around it
+                lo_s, hi_s = 0, diff.GENEROUS_STACK
+                while lo_s + 1 < hi_s:
+                    mid = (lo_s + hi_s) // 2
+                    rr = diff.run_lines(with_stack(base, mid), args, 3_000_000)
+                    if rr.kind == 'ok' and rr.outcome.out == want and rr.outcome.klass == 'WIN':
+                        hi_s = mid
+                    else:
+                        lo_s = mid
+                runner.count(res, 'smallest_sufficient_stack_words_w%d' % word, hi_s)
+                for s in range(max(1, hi_s - 3), hi_s + 4):
+                    lines = with_stack(base, s)
+                    res['evaluations'] += 1
+                    rr = diff.run_lines(lines, args, 3_000_000)
+                    o = rr.outcome
+                    case = diff.case_dict(PROG, args, word, s)
+                    san = [x for x in o.reports if x[1] == 'san']
+                    if san:
+                        runner.fail(res, 'M-SAN', f'write routine at stack {s}: {san[0][2]} (asm line {san[0][4]})', case, observed=o.brief())
+                        break
+                    if s >= hi_s and (o.out != want or o.klass != 'WIN'):
+                        runner.fail(res, 'M-WRITE', f'caller state disturbed at exactly-sufficient stack {s}', case, expected=want[:200].decode(), observed=o.brief())
+                        break
+                    if s < hi_s and not tt and not (o.klass == 'ERROR:stack_overflow' and want.startswith(o.out)):
+                        runner.fail(res, 'M-WRITE', f'at stack {s} (below the smallest sufficient size {hi_s}) the run neither overflows cleanly nor prints a prefix: {o.klass} {o.out[-40:]!r}',
+                                    case, observed=o.brief())
+                        break
+                    runner.count(res, 'tight_stack_runs_ok')
         res['samples'].append({'caller_state': 'writeln(v[i]) between live caller scalars/arrays, re-printed afterwards', 'word': word, 'values': vals[:8]})
     return res
